@@ -58,7 +58,7 @@ V_ENSURES(V_IMP(V_OLD(g_mod->tb.tokens) > 0 && V_PRIO(flags) != 0 && !V_PRIO_ONE
 /* otherwise exactly one source is created, with exactly one priority: the requested one, or NORMAL when none was given; the user pointer travels with it */
 V_ENSURES(V_IMP(V_OLD(g_mod->tb.tokens) > 0 && (V_PRIO(flags) == 0 || V_PRIO_ONE(flags)),
                 g.createsrc_calls == V_OLD(g.createsrc_calls) + 1 && g.createsrc_type == (int)type && g.createsrc_up == userptr && V_PRIO_ONE(g.createsrc_flags)
-                && V_PRIO(g.createsrc_flags) == (V_PRIO(flags) ? V_PRIO(flags) : M_SRC_PRIO_NORM) && (g.createsrc_flags & ~M_SRC_PRIO_MASK) == (flags & ~M_SRC_PRIO_MASK)
+                && V_PRIO(g.createsrc_flags) == (V_PRIO(flags) ? V_PRIO(flags) : M_SRC_PRIO_NORM) && (g.createsrc_flags & ~(M_SRC_PRIO_MASK)) == (flags & ~(M_SRC_PRIO_MASK))
                 && g.bstins_calls == V_OLD(g.bstins_calls) + 1))                                                                                   /*@C13.every-source-has-exactly-one-priority-default-normal*/
 /* keyed set: a key that is already present is refused with EEXIST -- the candidate source is released, the set and the poll set are untouched */
 V_ENSURES(V_IMP(V_OLD(g_mod->tb.tokens) > 0 && (V_PRIO(flags) == 0 || V_PRIO_ONE(flags)) && g_key_present,
